@@ -21,7 +21,7 @@ ASSUMPTIONS = [
     "I-10: a kind-mismatched or partly invalid new*Vector may leave each validly named element at its old or at the sent value",
     "TTY: one message per line, read through real aiofiles wrappers over a controlled executor (FIFO job order here; orders are C19's business)",
 ]
-KINDS = ("text", "number-printf", "switch-OneOfMany", "light", "blob")
+KINDS = ("text", "number-printf", "number-sexa", "switch-OneOfMany", "light", "blob")
 NEWTAG = {"text": "Text", "number": "Number", "switch": "Switch", "blob": "BLOB"}
 ONE = {"text": "oneText", "number": "oneNumber", "switch": "oneSwitch", "blob": "oneBLOB"}
 
@@ -71,6 +71,13 @@ def catalogue(kind):
     # syntactically valid numbers that no float can hold
     F.append(("number-text-huge-int", new_msg("number", ['<oneNumber name="A">%s</oneNumber>' % ("9" * 400)]), []))
     F.append(("number-text-huge-decimal", new_msg("number", ['<oneNumber name="A">%s.5</oneNumber>' % ("9" * 400)]), []))
+    # finite for a float, but beyond what a sexagesimal format can render
+    F.append(("number-text-1e307", new_msg("number", ['<oneNumber name="A">1%s.0</oneNumber>' % ("0" * 307)]), [("TGT", "A", 1e307)]))
+    F.append(("number-text-minus-1e307", new_msg("number", ['<oneNumber name="A">-1%s</oneNumber>' % ("0" * 307)]), [("TGT", "A", -1e307)]))
+    # a valid first element followed by one that cannot be applied
+    F.append(("valid-then-huge", new_msg("number", [valid_child("number", "A", 3)[0], '<oneNumber name="B">%s</oneNumber>' % ("9" * 400)]), [("TGT", "A", -3.25)]))
+    # raw non-ASCII bytes (ISO-8859-1, as the transports decode them) in an otherwise valid message
+    F.append(("raw-latin1-byte", new_msg("text", ['<oneText name="A">caf\xe9</oneText>']), [("TGT", "A", "caf\xe9")]))
     F.append(("number-text-huge-sexagesimal", new_msg("number", ['<oneNumber name="A">%s:30</oneNumber>' % ("9" * 400)]), []))
     # python's lenient decoder reads 'QUJD=' as b"ABC": the element is validly named, the sent value may be taken
     F.append(("base64-bad-padding", new_msg("blob", ['<oneBLOB name="A" size="3" format=".x">QUJD=</oneBLOB>']), [("TGT", "A", (b"ABC", ".x"))]))
